@@ -8,7 +8,9 @@
     (`<ref>` is `-` outside the domain of the equivalence theorems: a negative inIdx that does not wrap
      around both vin and vout — `IdxOK` of Props/C06Concrete.lean — or CLEANSTACK without P2SH)
     c06.seq     (kind a0 a1 flags tx inIdx txref)*   a history of calls in one process: kind `e` = eval
-                   (a0 = script, a1 = stack), kind `v` = verify (a0 = scriptSig, a1 = scriptPubKey); `txref`
+                   (a0 = script, a1 = stack), kind `E` = eval with the caller's stack list of the previous eval
+                   step (as that call left it), kind `v` = verify (a0 = scriptSig, a1 = scriptPubKey), kind `o` =
+                   an observer call on the script / transaction object (fixed reply `ok:obs`); `txref`
                    says how the harness obtains txTo (the model is a pure function and ignores it)
                    → the step replies joined by ` ;; `
     c06.num     int                           Model.bn2vch ~ Ref.scriptNumSer          (hex ~ hex)
@@ -108,19 +110,41 @@ def stepReply (detail : Bool) (kind a0 a1 fl tx idx : String) : String :=
       else badArgs
   | _, _, _, _ => badArgs
 
-/-- replies of a history: groups of 7 fields -/
-def seqReplies (detail : Bool) : List String → Option (List String)
-  | [] => some []
-  | kind :: a0 :: a1 :: fl :: tx :: idx :: _txref :: rest => do
-      let rs ← seqReplies detail rest
-      pure (stepReply detail kind a0 a1 fl tx idx :: rs)
-  | _ => none
+/-- the caller's stack list after `EvalScript(stack, script, …)`: the final stack, or — the list is
+    mutated in place — the state an EvalScriptError captured; unknown after any other exception -/
+def stackAfter (script : Bytes) (stack : List Bytes) (fl : Flags) (tx : Tx) (inIdx : Int) : Option (List Bytes) :=
+  match Model.ScriptEval.evalScript (mkCtx tx inIdx) fl stack script with
+  | .ok st => some st
+  | .error (.eval cap) => some cap.stack
+  | .error _ => none
+
+/-- replies of a history: groups of 7 fields.  The model is a pure function of each step's arguments; the only
+    thing threaded through a history is what the CALLER keeps: kind `E` evaluates with the very stack list of the
+    previous `e` / `E` step (`prev`).  Kind `o` (an observer call on the script / transaction object between two
+    evaluations: is_p2sh, GetSigOpCount, GetTxid, …) has the fixed reply `ok:obs` — its result is C08's / C01's
+    business, here it must only leave no trace. -/
+def seqReplies (detail : Bool) : Option (List Bytes) → List String → Option (List String)
+  | _, [] => some []
+  | prev, kind :: a0 :: a1 :: fl :: tx :: idx :: _txref :: rest =>
+      if kind == "o" then do
+        let rs ← seqReplies detail prev rest
+        pure ("ok:obs ~ ok:obs" :: rs)
+      else if kind == "e" || kind == "E" then
+        match parseHex? a0, (if kind == "E" then prev else parseStack? a1), parseFlags? fl, TxFmt.parseTx? tx, parseInt? idx with
+        | some sc, some st, some fl, some tx, some idx => do
+            let rs ← seqReplies detail (stackAfter sc st fl tx idx) rest
+            pure (evalBoth detail sc st fl tx idx :: rs)
+        | _, _, _, _, _ => some [badArgs]
+      else do
+        let rs ← seqReplies detail prev rest
+        pure (stepReply detail kind a0 a1 fl tx idx :: rs)
+  | _, _ => none
 
 /-- `detail = true` is what C07 asks for (captured error state printed) -/
 def handleWith (detail : Bool) (op : String) (args : List String) : Option String :=
   match op, args with
   | "c06.seq", steps => some <|
-      match seqReplies detail steps with
+      match seqReplies detail none steps with
       | some rs => if rs.any (· == badArgs) then badArgs else " ;; ".intercalate rs
       | none => badArgs
   | "c06.eval", [sc, st, fl, tx, idx] => some <| stepReply detail "e" sc st fl tx idx
